@@ -246,6 +246,9 @@ def run(ctx, rep) -> None:
 
     rep.rule("C11.5", "the eigen solver is a function of its tensor arguments: no in-place operation lands in the caller's matrix (the ridge is formed out of place)")
     rep.attempt("tensor_arguments_are_inputs", tensor_arguments_are_inputs, ctx, rep, "C11.5")
+    from .common import memoised_results_are_read_only
+
+    rep.attempt("memoised_results_are_read_only", memoised_results_are_read_only, ctx, rep, "C11.5")
     from .c10 import dispatch_rules
 
     rep.rule("C11.6", "the eigen solver is reached with the matrix, the rational root and epsilon it was asked for (dispatch forwards root, not a part of it)")
